@@ -51,7 +51,7 @@ def build_frame(spec):
             cols[name] = pd.Series(pd.to_datetime(np.array([np.datetime64("NaT") if v is None else np.datetime64("2020-01-01") + np.timedelta64(v, "h")
                                                             for v in vals], dtype="datetime64[ns]"))).dt.tz_localize("UTC").dt.tz_convert(c["tz"])
         elif k == "cat":
-            cols[name] = pd.Categorical(vals, categories=c["categories"])
+            cols[name] = pd.Categorical(vals, categories=c["categories"], ordered=bool(c.get("ordered")))
         else:
             raise ValueError(k)
     return pd.DataFrame(cols)
@@ -493,7 +493,8 @@ def gen_program(rng, spec, chunks_of, cols=None, wrong_type=0.03, ops=None, in_s
             name = rng.choice(names)
             op = rng.choice(ops or OPS)
             kind = spec["cols"][name]["kind"]
-            if kind in ("bool", "cat") and op in ("<", "<=", ">", ">=") and rng.random() < (0.7 if kind == "bool" else 0.95):
+            if kind in ("bool", "cat") and op in ("<", "<=", ">", ">=") and not spec["cols"][name].get("ordered") \
+                    and rng.random() < (0.7 if kind == "bool" else 0.95):
                 op = rng.choice(["==", "!=", "in", "not in"])      # pandas refuses to order an unordered categorical
             if kind == "bool" and rng.random() < tilde:
                 grp.append([name, "~", None])          # rows where the boolean column is False (row-level filtering only)
